@@ -1829,6 +1829,22 @@ def m_iter_take_while(I, it, args, pc, e):
     return VIter(VVec(vec.items, cnt))
 
 
+def m_iter_zip(I, it, args, pc, e):
+    """Iterator::zip: pairs up to the shorter of the two sequences"""
+    a = it.vec if isinstance(it, VIter) else it
+    o = args[0]
+    if isinstance(o, VStr):
+        o = VVec([VChar(c) for c in o.e.b], o.e.n)
+    elif isinstance(o, VIter):
+        o = o.vec
+    if not isinstance(o, VVec):
+        raise Unsupported("zip with " + type(o).__name__)
+    k = min(len(a.items), len(o.items))
+    # beyond the modelled capacity of the shorter list nothing can be paired (its length is bounded by its capacity)
+    n = z3.If(ule(a.n, o.n), a.n, o.n)
+    return VIter(VVec([VTuple([a.items[i], o.items[i]]) for i in range(k)], n))
+
+
 def m_iter_filter(I, it, args, pc, e):
     """Iterator::filter of which only `.count()` is modelled: the number of elements satisfying the predicate"""
     vec = it.vec if isinstance(it, VIter) else it
@@ -2214,6 +2230,8 @@ METHODS = {
     ("VIter", "next"): m_iter_next,
     ("VIter", "count"): m_count,
     ("VIter", "filter"): m_iter_filter,
+    ("VIter", "zip"): m_iter_zip,
+    ("VStr", "iter"): m_bytes,
     ("VIter", "take_while"): m_iter_take_while,
     ("VIter", "skip_while"): lambda I, it, a, pc, e: (_ for _ in ()).throw(Unsupported("skip_while")),
     ("VVec", "len"): m_vec_len,
